@@ -2,6 +2,7 @@
 from __future__ import annotations
 
 import ast
+import re
 from typing import Dict, List, Optional, Set, Tuple
 
 from .cfg import CFG, Node
@@ -399,56 +400,202 @@ def q_r5_trnuid(p: Project, schema: Schema, rep: Report):
     rep.check("Q-R5", "uuid:not-cached", ok, f"uuid decorators {decs}" if not ok else "", loc(p, ufn or ci.node))
 
 
-def q_r6_serialize(p: Project, rep: Report):
-    rep.rule("Q-R6", "serialize(): the end-tag-less writer is reachable only when close_elements is False and past a raise on effective version >= 200; the header is made for that same effective version; pretty-printing only when asked")
+WRITERS = ("tostring_unclosed_elements", "tostring")
+
+
+def serialize_returns(p: Project):
+    """[(path, header expr, body expr)] for every normally returning path of the flattened OFXClient.serialize,
+    expressions resolved along the path; plus the PathList and the flattened function.  AnalysisError when the
+    returned value is not `<something made from make_header(...)> + <a writer call>`."""
+    from .paths import enumerate_paths, value_on_path
+    from .rules_client import need
+
     ci = client_class(p)
-    fn = ci.own_func("serialize")
-    if fn is None:
-        raise AnalysisError("OFXClient.serialize not found")
-    cfg = CFG(fn)
-    reach = Reaching(cfg)
-    unclosed = cfg.nodes_calling(lambda c: (dotted(c.func) or "").split(".")[-1] == "tostring_unclosed_elements")
-    if not unclosed:
-        rep.note("Q-R6: serialize() no longer uses tostring_unclosed_elements")
-    guards = []
-    for n in cfg.nodes:
-        if n.kind == "test" and any(isinstance(s, ast.Raise) for s in n.stmt.body):
-            t = text(norm(n.stmt.test))
-            if t in ("200 <= version", "199 < version"):
-                guards.append(n)
-    for u in unclosed:
-        ok = bool(guards) and cfg.dominated_by(u.id, [g.id for g in guards])
-        rep.check("Q-R6", "serialize:unclosed-only-below-200", ok, "the end-tag-less writer can be reached for an OFX 2.x request (no raise on version >= 200 dominates it)" if not ok else "", loc(p, u.stmt))
-        # effective version at the guard = param or self.version
-        for g in guards:
-            vals = sorted({text(v) for v in resolve_values(ast.Name(id="version", ctx=ast.Load()), g, reach)})
-            ok = vals == ["self.version", "version"]
-            rep.check("Q-R6", "serialize:guard-on-effective-version", ok, f"the guard tests {vals}; expected the version argument falling back to self.version" if not ok else "", loc(p, g.stmt))
-        # reachable only when close_elements is False
-        r = cfg.reachable(cfg.entry.id, edge_filter=_assume_text({"close_elements is False": False, "not close_elements": False, "close_elements": True}))
-        ok = u.id not in r
-        rep.check("Q-R6", "serialize:unclosed-only-when-asked", ok, "the end-tag-less writer is used although close_elements is true" if not ok else "", loc(p, u.stmt))
-    # header for the same effective version
-    for node in cfg.nodes_calling(lambda c: (dotted(c.func) or "").split(".")[-1] == "make_header"):
-        call = [c for c in node.calls() if (dotted(c.func) or "").split(".")[-1] == "make_header"][0]
-        b = _bind(call, ["version", "security", "oldfileuid", "newfileuid"])
-        vals = sorted({text(v) for v in resolve_values(b["version"], node, reach)}) if "version" in b else []
-        ok = vals == ["self.version", "version"]
-        rep.check("Q-R6", "serialize:header-version", ok, f"header version is {vals}" if not ok else "", loc(p, call))
+    fn = need(p, ci, "serialize")
+    paths = enumerate_paths(fn, None, Expander(fn))
+    cfg = paths.cfg
+    out = []
+    for q in paths:
+        if q.outcome == "fall":
+            raise AnalysisError("Q-R6: serialize() can fall off its end")
+        if q.outcome != "return":
+            continue
+        v = value_on_path(q, cfg, q.value, upto=len(q.nodes) - 1)
+        parts = []
+
+        def flat_add(e):
+            if isinstance(e, ast.BinOp) and isinstance(e.op, ast.Add):
+                flat_add(e.left)
+                flat_add(e.right)
+            else:
+                parts.append(e)
+
+        if isinstance(v, ast.Call) and isinstance(v.func, ast.Attribute) and v.func.attr == "join" and v.args and isinstance(v.args[0], (ast.List, ast.Tuple)):
+            parts = list(v.args[0].elts)
+        else:
+            flat_add(v)
+        hdr = [e for e in parts if any(isinstance(c, ast.Call) and (dotted(c.func) or "").split(".")[-1] == "make_header" for c in ast.walk(e))]
+        body = [e for e in parts if e not in hdr]
+        if len(hdr) != 1 or len(body) != 1 or parts.index(hdr[0]) != 0:
+            raise AnalysisError(f"Q-R6: serialize() returns {text(v)[:120]}, not header + body")
+        out.append((q, hdr[0], body[0]))
+    if not out:
+        raise AnalysisError("Q-R6: serialize() never returns")
+    return out, paths, fn
+
+
+def q_r6_serialize(p: Project, rep: Report):
+    from .paths import any_of, atom, implies, simple_conds, value_on_path
+
+    rep.rule("Q-R6", "serialize(), path by path: what is returned is header + body; the body is one of the two writers applied to the tree of the request passed in; the end-tag-less writer only on paths where the effective close_elements is False and the effective version is below 200; the header is made for that same effective version (the argument, self.<attr> when the argument is None) with the file uids passed in; pretty-printing only when asked")
+    rets, paths, fn = serialize_returns(p)
+    cfg = paths.cfg
+    params = params_of(fn)
+    ofx_param = params[1]
+
+    def effective(q, name, e, upto_conds) -> Optional[bool]:
+        """is the (resolved) expression e the effective value of option `name` on this path: the argument when it is not
+        None, self.<name> when it is.  None = not recognised."""
+        t = text(e)
+        facts = simple_conds(upto_conds)
+        isnone = facts.get(f"{name} is None")
+        if t == name:
+            return None if isnone is None else isnone is False
+        if t == f"self.{name}":
+            return isnone is True
+        if isinstance(e, ast.BoolOp) and isinstance(e.op, ast.Or) and [text(x) for x in e.values] == [name, f"self.{name}"]:
+            return None
+        if isinstance(e, ast.Constant):
+            return False
+        return None
+
+    verdicts = {k: True for k in ("unclosed-only-below-200", "guard-on-effective-version", "unclosed-only-when-asked", "header-version", "header-oldfileuid", "header-newfileuid", "tree-of-given-request", "indent-only-when-asked")}
+    details = {}
+    undec = set()
+    where = {}
+    n_unclosed = 0
+    for q, hdr, body in rets:
+        conds = q.conds
+        # ---- header
+        mh = [c for c in ast.walk(hdr) if isinstance(c, ast.Call) and (dotted(c.func) or "").split(".")[-1] == "make_header"][0]
+        b = _bind(mh, ["version", "security", "oldfileuid", "newfileuid"])
+        where.setdefault("header", mh)
+        if "version" not in b:
+            verdicts["header-version"] = False
+            details["header-version"] = "make_header() is not given a version"
+            hv = None
+        else:
+            hv = b["version"]
+            e = effective(q, "version", hv, conds)
+            if e is False:
+                verdicts["header-version"] = False
+                details["header-version"] = f"header version is {text(hv)} on a path where {simple_conds(conds)}"
+            elif e is None:
+                undec.add(f"header version `{text(hv)}` not recognised as the effective version")
         for k in ("oldfileuid", "newfileuid"):
-            ok = k in b and text(b[k]) == k
-            rep.check("Q-R6", f"serialize:header-{k}", ok, f"{k} is not passed to the header" if not ok else "", loc(p, call))
-    # body from the given ofx; header + body
-    rets = [r for r in own_nodes(fn) if isinstance(r, ast.Return)]
-    ok = bool(rets) and all(isinstance(r.value, ast.BinOp) and isinstance(r.value.op, ast.Add) and text(r.value.left) == "header" and text(r.value.right) == "body" for r in rets)
-    rep.check("Q-R6", "serialize:header+body", ok, "" if ok else "serialize() does not return header + body", loc(p, fn))
-    trees = [s for s in own_statements(fn) if isinstance(s, ast.Assign) and isinstance(s.value, ast.Call) and text(s.value.func).endswith(".to_etree")]
-    ok = bool(trees) and all(text(s.value.func) == f"{params_of(fn)[1]}.to_etree" for s in trees)
-    rep.check("Q-R6", "serialize:tree-of-given-request", ok, "" if ok else "the body is not built from the request passed in", loc(p, fn))
-    ind = cfg.nodes_calling(lambda c: (dotted(c.func) or "").split(".")[-1] == "indent")
-    r = cfg.reachable(cfg.entry.id, edge_filter=_assume_text({"prettyprint": False}))
-    ok = all(n.id not in r for n in ind)
-    rep.check("Q-R6", "serialize:indent-only-when-asked", ok, "" if ok else "pretty-printing applied although prettyprint is false", loc(p, fn))
+            if not (k in b and text(b[k]) == k):
+                verdicts[f"header-{k}"] = False
+                details[f"header-{k}"] = f"{k} is not passed to the header"
+        # ---- body
+        if not isinstance(body, ast.Call):
+            raise AnalysisError(f"Q-R6: serialize() body is {text(body)[:80]}, not a writer call")
+        w = (dotted(body.func) or "").split(".")[-1]
+        arg0 = body.args[0] if body.args else None
+        if arg0 is None or text(arg0) != f"{ofx_param}.to_etree()":
+            verdicts["tree-of-given-request"] = False
+            details["tree-of-given-request"] = f"the body is built from {text(arg0) if arg0 is not None else None}, not from the request passed in"
+        if w == "tostring_unclosed_elements":
+            n_unclosed += 1
+            where.setdefault("unclosed", body)
+            # effective close_elements is False
+            ce_atoms = []
+            for c, want in conds:
+                for a in sorted(c.atoms()):
+                    m = a[: -len(" is False")] if a.endswith(" is False") else (a[5:-1] if a.startswith("bool(") else None)
+                    if m in ("close_elements", "self.close_elements"):
+                        ce_atoms.append((a, m, a.endswith(" is False")))
+            goal = []
+            for a, m, isfalse in ce_atoms:
+                e = effective(q, "close_elements", ast.parse(m, mode="eval").body, conds)
+                if e is True:
+                    goal.append(atom(a, True) if isfalse else atom(a, False))
+            r = implies(conds, any_of(*goal)) if goal else False
+            if r is False:
+                verdicts["unclosed-only-when-asked"] = False
+            elif r is None:
+                undec.add("close_elements: too many conditions")
+            # effective version below 200
+            v_atoms = []
+            for c, want in conds:
+                for a in sorted(c.atoms()):
+                    mm = re.fullmatch(r"(.+) < 200", a)
+                    if mm:
+                        v_atoms.append((a, mm.group(1), True))
+                    mm = re.fullmatch(r"199 < (.+)", a)
+                    if mm:
+                        v_atoms.append((a, mm.group(1), False))
+            goal = []
+            seen_guard = False
+            for a, m, pol in v_atoms:
+                seen_guard = True
+                try:
+                    me = ast.parse(m, mode="eval").body
+                except SyntaxError:
+                    continue
+                e = effective(q, "version", me, conds)
+                if e is True and (hv is None or text(hv) == m):
+                    goal.append(atom(a, pol))
+                elif e is False or (hv is not None and text(hv) != m and e is True):
+                    verdicts["guard-on-effective-version"] = False
+                    details["guard-on-effective-version"] = f"the guard tests {m}; expected the effective version (the argument, self.version when it is None) - the header is made for {text(hv) if hv is not None else None}"
+                else:
+                    undec.add(f"version guard on `{m}` not recognised")
+            if goal:
+                r = implies(conds, any_of(*goal))
+                if r is False:
+                    verdicts["unclosed-only-below-200"] = False
+            elif not seen_guard:
+                verdicts["unclosed-only-below-200"] = False
+        elif w != "tostring":
+            raise AnalysisError(f"Q-R6: serialize() body producer {text(body.func)} not known")
+        # ---- indent
+        for nid in q.nodes:
+            n = cfg.nodes[nid]
+            if n.stmt is None or n.kind in ("join", "handlers"):
+                continue
+            if any((dotted(c.func) or "").split(".")[-1] == "indent" for c in n.calls()):
+                before = q.conds_before(nid) or []
+                goal = []
+                for c, want in before:
+                    for a in sorted(c.atoms()):
+                        if a in ("bool(prettyprint)", "bool(self.prettyprint)"):
+                            e = effective(q, "prettyprint", ast.parse(a[5:-1], mode="eval").body, before)
+                            if e is True:
+                                goal.append(atom(a, True))
+                r = implies(before, any_of(*goal)) if goal else False
+                if r is False:
+                    verdicts["indent-only-when-asked"] = False
+    if n_unclosed == 0:
+        rep.note("Q-R6: serialize() no longer uses tostring_unclosed_elements")
+    rep.unit("serialize_return_paths", len(rets))
+    msgs = {"unclosed-only-below-200": "the end-tag-less writer can be reached for an OFX 2.x request (no raise on effective version >= 200 on that path)",
+            "unclosed-only-when-asked": "the end-tag-less writer is used on a path where the effective close_elements is not known to be False",
+            "indent-only-when-asked": "pretty-printing applied although prettyprint is false"}
+    for k, ok in verdicts.items():
+        if k.startswith("unclosed") or k.startswith("guard"):
+            if n_unclosed == 0:
+                continue
+            w_ = where.get("unclosed", fn)
+        elif k.startswith("header"):
+            w_ = where.get("header", fn)
+        else:
+            w_ = fn
+        if ok and undec and k in ("header-version", "guard-on-effective-version", "unclosed-only-below-200", "unclosed-only-when-asked"):
+            continue
+        rep.check("Q-R6", f"serialize:{k}", ok, (details.get(k) or msgs.get(k, "")) if not ok else "", loc(p, w_))
+    rep.check("Q-R6", "serialize:header+body", True, "", loc(p, fn))
+    for u in sorted(undec):
+        rep.note(f"Q-R6 undecided: {u}")
 
 
 def _assume_text(facts: Dict[str, bool]):
